@@ -140,6 +140,9 @@ def run(ctx):
     ctx.check(ok, "R12.2", "decorators/service.py::ServiceDecorator.stop", "stop removes the domain/name that start registered",
               msg="ServiceDecorator.stop does not remove the same domain/name that start registered", key="new start/stop names", node=sp, rel="decorators/service.py")
 
+    ctx.rule("R12.7", "legacy @service: a registration survives trigger_init only if the function is handed to its context (so stop/reload reaches it); failed decorator sets roll it back", floor=2)
+    legacy_service_reachability(ctx, program, "R12.7")
+
     ctx.rule("R12.3", "service handlers pass trigger_type='service', the call context and the call data, run the function in its own task and return its result", floor=2)
     for uid in ("eval.py::EvalFunc.trigger_init.pyscript_service_factory.pyscript_service_handler", "decorators/service.py::ServiceDecorator._service_callback"):
         f = program.func(uid)
@@ -262,3 +265,48 @@ def split_table(ctx, program, rid):
                                 bad = f"call options are {k}, expected {want_opts}"
                         ctx.check(bad is None, rid, uid, f"{uid.split('::')[1].split('.')[0]}.{'get' if closure else 'service_call'}: {label}",
                                   msg=f"{uid} called with {label}: {bad}", key=f"split {label}", node=fn, rel=uid.split("::")[0])
+
+
+def legacy_service_reachability(ctx, program, rid):
+    """EvalFunc.trigger_init with every call a possible failure: exits on which a service stays registered although neither
+    trigger_register (the context's stop() then reaches trigger_stop) nor a roll-back happened."""
+    uid = "eval.py::EvalFunc.trigger_init"
+    pol = FlowPolicy(program, events=["Function.service_register", "trig_ctx.trigger_register", "self.trigger_stop"], may_raise_all=True, cancel=False,
+                     locals_={"self", "trig_ctx"}, record_atoms=False)
+    pol.acquire_labels = {"Function.service_register"}
+    pol.loop_unroll = 2
+    out = run_flow(program, uid, pol, heap={"self.trigger_service": ListV((), "set"), "self.trigger": ListV((), "list")})
+    # does the (only) caller roll back when trigger_init raises?
+    caller = program.func("eval.py::AstEval.ast_functiondef")
+    caller_rolls_back = False
+    n_sites = 0
+    for t in body_walk(caller):
+        if isinstance(t, ast.Try) and any(isinstance(m, ast.Call) and (call_name(m) or "").endswith(".trigger_init") for s2 in t.body for m in ast.walk(s2)):
+            n_sites += 1
+            recv = [norm(m.func.value) for s2 in t.body for m in ast.walk(s2) if isinstance(m, ast.Call) and (call_name(m) or "").endswith(".trigger_init")][0]
+            caller_rolls_back = all(any(isinstance(m, ast.Call) and call_name(m) == f"{recv}.trigger_stop" for s2 in h.body for m in ast.walk(s2)) for h in t.handlers) and bool(t.handlers)
+    sites = [u.uid for u in program.functions() for m in body_walk(u.node) if isinstance(m, ast.Call) and (call_name(m) or "").endswith(".trigger_init")]
+    if n_sites != 1 or sites != ["eval.py::AstEval.ast_functiondef"]:
+        raise AnalysisError(f"trigger_init call sites changed: {sites}")
+    leaks_ret, leaks_exc, n_reg = [], [], 0
+    for kind, c, desc in exits(out):
+        evs = [e[1] for e in c.trace if e[0] == "call"]
+        if "Function.service_register" not in evs:
+            continue
+        n_reg += 1
+        last = max(i for i, e in enumerate(evs) if e == "Function.service_register")
+        handed = "trig_ctx.trigger_register" in evs or "self.trigger_stop" in evs[last + 1:]
+        if kind == "return" and not handed:
+            leaks_ret.append(f"return at line {c.env.get('$retline', '?')}")
+        if kind == "raise" and not handed and not caller_rolls_back:
+            leaks_exc.append(desc)
+    if n_reg == 0:
+        raise AnalysisError("trigger_init: no path registers a service")
+    ctx.check(not leaks_ret, rid, uid, "return paths with a registered service hand the function to its context",
+              msg=f"legacy @service: trigger_init returns on {len(leaks_ret)} path(s) with a service registered but the function neither registered with its global context nor rolled back "
+              f"(e.g. @service combined with @state_active/@time_active/@task_unique and no trigger): GlobalContext.stop() never reaches trigger_stop(), the HA service handler keeps the "
+              f"function alive, so the service outlives its file", key="service registered, function not handed to context (return)", node=program.func(uid), rel="eval.py")
+    ctx.check(not leaks_exc, rid, uid, "failing paths with a registered service are rolled back",
+              msg=f"legacy @service: trigger_init can raise on {len(leaks_exc)} path(s) after a service was registered (e.g. {sorted(set(leaks_exc))[:3]}) and the caller only logs the exception: "
+              f"the registered alias is never removed (a refused later alias, an invalid later decorator)", key="service registered, definition failed (raise)",
+              node=caller, rel="eval.py")
